@@ -255,6 +255,9 @@ def run(ch: Checker) -> None:
     recvbuf_tls_check(ch, 'C12.10')
 
     # ---------------- C12.11/12 (shared)
+    ch.rule('C12.14', 'the upstream URL a request is sent to is parsed for that request: Url objects are edited after parsing (dynamic routes append to .remainder, handlers rewrite paths), so neither Url.from_bytes nor anything it calls may be memoised (expected 0 sites)', 1)
+    from .common import memoised_objects_check
+    memoised_objects_check(ch, 'C12.14', ('Url', 'HttpParser', 'ChunkParser', 'WebsocketFrame'))
     ch.import_rules('C01', {'C01.2': 'C12.11', 'C01.3': 'C12.12'}, 'request body and upstream response cross the reverse proxy unmodified only if the connection buffer sends exactly what was queued')
 
     # ---------------- C12.9 (shared)
@@ -262,4 +265,5 @@ def run(ch: Checker) -> None:
 
     # ---------------- C12.7 (shared)
     ch.import_rules('C02', {'C02.2': 'C12.7'}, 'the request line the reverse-proxied origin reads is what HttpParser.build makes of the path the route chose')
+    ch.import_rules('C02', {'C02.3': 'C12.13'}, 'the request reaches the reverse-proxied origin with its framing intact only if the rebuild does not add a Content-Length next to a Transfer-Encoding header')
 
